@@ -43,6 +43,8 @@ class Ctx:
         self.notes = []
         self.cov = {}
         self.quick = tier == 'quick'
+        # the synthetic corpus (harness/internal/corpus/synth.go) rides along with the repository's corpus in every driver
+        GOENV.setdefault('VERIF_SYNTH', '150' if self.quick else '500')
 
     def path(self, *a):
         p = os.path.join(self.scratch, *a)
